@@ -168,6 +168,22 @@ Proof.
 Qed.
 End RestoreProofs.
 
+(** F7: "a truncated input always yields an error" is false of the decoder's
+    Close: for the 8 lengths 0..7 of the remainder after the page-block end
+    marker it panics; from 8 bytes on the slice is in range (and a short index
+    or trailer is then reported as an error by the parsing that follows). *)
+Theorem decoder_close_never_panics_refuted :
+  exists remaining, decoder_close_hashed_len remaining = None.
+Proof. exists 0. reflexivity. Qed.
+
+Theorem decoder_close_panic_window : forall remaining,
+  decoder_close_hashed_len remaining = None <-> remaining < ltx_checksum_size.
+Proof.
+  intros r. unfold decoder_close_hashed_len. destruct (Nat.ltb r ltx_checksum_size) eqn:E.
+  - apply Nat.ltb_lt in E. split; auto.
+  - apply Nat.ltb_ge in E. split; [discriminate | lia].
+Qed.
+
 (** the hypotheses are satisfiable: a two-file chain that restores; the same
     chain with a damaged second file is rejected and leaves nothing behind *)
 Section Example.
